@@ -262,5 +262,10 @@ theorem finS_step {M : Nat} {s s' : Sys} {c : Choice} (h : FinS s)
   | moveLeader b =>
     simp only [sysStep, Option.some.injEq] at hs; subst hs
     exact finS_mono h rfl (fun _ hf => hf) (fun _ _ hf => hf)
+  | closeW w =>
+    obtain ⟨_, rfl⟩ := closeW_spec hs
+    exact finS_mono h rfl (fun _ hf => hf) (fun k f hf => by
+      show f ∈ (setW s.wk w ⟨(s.wk w).inq, closeBp (s.wk w).bp, none⟩ k).inq
+      rw [setW_inq_same]; exact hf)
 
 end Lemmas.C02sys
